@@ -177,6 +177,23 @@ theorem pair_builder_first_match {V : Type} (fmtKey : V → Nat) (fmt : V → Na
   | none => rfl
   | some r => rfl
 
+/-- **pair_builder_then_split_first_match.**  End to end at the model level: compile ANY `insert_pair`
+and `insert_classes` rules with `PairPosBuilder`, then split ANY subset of the resulting subtables at
+ANY admissible points (`split_subtables` puts the pieces in place): the lookup does not panic on the
+way and for EVERY glyph pair its first match is still what the input rules say. -/
+theorem pair_builder_then_split_first_match {V : Type} (fmtKey : V → Nat) (fmt : V → Nat × Nat)
+    (pairRules : List ((Nat × Nat) × V)) (classRules : List (ClassRule V))
+    (hb1 : ∀ r ∈ pairRules, r.1.1 < 65536) (hb2 : ∀ r ∈ classRules, ∀ x ∈ r.c1, x < 65536)
+    (choice : List (Option (List Nat)))
+    (hv : ∀ ts, buildPairPos fmtKey fmt (GlyphPairs.ofRules pairRules) (ClassPairs.ofRules classRules) = some ts →
+      AllValid PairSub.ValidChoice ts choice) :
+    ∃ ts ts', buildPairPos fmtKey fmt (GlyphPairs.ofRules pairRules) (ClassPairs.ofRules classRules) = some ts ∧
+      splitLookupWith PairSub.splitAt ts choice = some ts' ∧
+      ∀ g1 g2, firstMatchPair ts' g1 g2 = pairRulesValue pairRules classRules g1 g2 := by
+  obtain ⟨ts, a, b⟩ := pair_builder_first_match fmtKey fmt pairRules classRules hb1 hb2
+  obtain ⟨ts', c, d⟩ := pair_lookup_split_preserves_first_match ts choice (hv ts a)
+  exact ⟨ts, ts', a, c, fun g1 g2 => by rw [d, b]⟩
+
 /-! ## non-vacuity -/
 
 /-- three rules: the second overwrites the first's cell, the third overlaps class {5, 6} and opens
